@@ -101,9 +101,10 @@ func (d *Ar) Next() (*ArEntry, error) {
 
 // toDecimal {{{
 
-// Take a byte array, and return an int64
+// Take a byte array, and return an int64. The numeric fields of an `ar(1)`
+// header are unsigned, so a sign is not accepted.
 func toDecimal(input string) (int64, error) {
-	out, err := strconv.Atoi(input)
+	out, err := strconv.ParseUint(input, 10, 63)
 	return int64(out), err
 }
 
